@@ -52,6 +52,7 @@ type syncObj struct {
 	held    bool
 	holder  int
 	readers int
+	waitingWriters int
 	state   int
 	count   int64
 	vc      vclock
